@@ -416,8 +416,8 @@ def base : Handler
       let c ← csrOf? n m ip ix dt
       let d := if (← bool? tr) then (csrDense c).transpose else csrDense c
       some (holds (DegreesSpec d (← natList? out)) "DegreesSpec")
-  | "c15.spec_membership", [labels, n, m, ip, ix, dt] => ans do
-      some (holds (MembershipSpec (← intList? labels) (csrDense (← csrOf? n m ip ix dt))) "MembershipSpec")
+  | "c15.spec_membership", [labels, nl, n, m, ip, ix, dt] => ans do
+      some (holds (MembershipSpec (← intList? labels) (← optNat? nl) (csrDense (← csrOf? n m ip ix dt))) "MembershipSpec")
   | "c15.topk", [scores, k, sort] => ans do
       some ("ok " ++ showList (topK (← ratList? scores) (← k.toNat?) (← bool? sort)))
   | "c15.spec_topk", [scores, k, sort, out] => ans do
